@@ -308,11 +308,14 @@ public:
 
         assert(x >= insertion_limit);
 
-        const auto diff = x ^ insertion_limit;
+        // note: for 8 and 16 bit Int, x ^ insertion_limit is promoted to int
+        const Int diff = x ^ insertion_limit;
         if (!diff)
             return 0;
 
-        const auto diff_in_bit = (8 * sizeof(Int) - 1) - clz(diff);
+        const auto diff_in_bit =
+            (8 * sizeof(unsigned long long) - 1) -
+            clz(static_cast<unsigned long long>(diff));
 
         const auto row = diff_in_bit / radix_bits;
         const auto bucket_in_row = ((x >> (radix_bits * row)) & mask) - row;
